@@ -177,6 +177,13 @@ GenNext ==
     \/ (\E t \in BOOLEAN : IoFailAppend(t))
     \/ (LET n == NextToEnact IN n.r # 0 /\ IoFailEnact(RandomElement(SUBSET DOMAIN logs[n.f].recs[n.r].w)))
     \/ IoFailOther \/ DropErr
+    \/ (Len(logs) > 0 /\ LET f == RandomElement({i \in 1..Len(logs) : calls >= 0})
+                              k == RandomElement({i \in 0..Len(logs[f].recs) : calls >= 0})
+                          IN \E t \in BOOLEAN : CorruptTruncate(f, k, t))
+    \/ (Len(logs) > 0 /\ LET f == RandomElement({i \in 1..Len(logs) : calls >= 0})
+                          IN Len(logs[f].recs) > 0 /\
+                             CorruptRecord(f, RandomElement({i \in 1..Len(logs[f].recs) : calls >= 0})))
+    \/ (Len(logs) > 0 /\ CorruptDelete(RandomElement({i \in 1..Len(logs) : calls >= 0})))
 
 GenSpec == Init /\ [][GenNext]_vars
 
